@@ -157,8 +157,14 @@ def agent(conn):
             elif op == 'gc':
                 gc.collect()
             elif op == 'touch':
-                if held:
-                    _touch(next(iter(held.values())))
+                # one harmless call per manager this process holds proxies of (per connection of this thread)
+                seen = set()
+                for pxy in list(held.values()):
+                    addr = getattr(getattr(pxy, '_token', None), 'address', None)
+                    if addr is not None and addr not in seen:
+                        seen.add(addr)
+                        _touch(pxy)
+                pxy = None
             elif op == 'names':
                 r = ('RET', sorted(held))
         except Exception as e:
